@@ -3,9 +3,10 @@ from __future__ import annotations
 
 import ast
 
+from sa import pat as P
 from sa import source
 from sa.cfg import cfg_of, guards
-from sa.minieval import CannotEval, ev
+from sa.minieval import CannotEval, Record, ev
 from sa.source import AnchorMissing, arg_of, bind_args, dotted, is_self_attr, last_attr, local_defs, params_of, short, u, walk_body
 from sa.sym import UnknownAtom, atoms_of, comparison, parse_expr, rat_equal
 from sa.tables import Unsupported, decide
@@ -36,6 +37,17 @@ def record_key_agreement(chk, rid, met):
     ok = bool(rets) and all(pat.guarded(r, f"E_rec.get('task', E_rec['operation']) == {tp}") is not None and len(pat.fact_nodes(r)) == 1 for r in rets)
     chk.ob(rid, "metrics(task) returns the record whose key EQUALS the requested task (no other match rule)", ok, rets[0] if rets else mt,
            f"selected under {[u(f_) for r in rets for f_ in pat.fact_nodes(r)]}", key="esrally/metrics.py:GlobalStats.metrics:equality")
+
+
+def _loop_var(node):
+    """name bound by the innermost `for` enclosing node (None if there is none / it unpacks a tuple)."""
+    lp = source.enclosing(node, ast.For)
+    return lp.target.id if lp is not None and isinstance(lp.target, ast.Name) else None
+
+
+def _il(e, defs):
+    """text of e with the single-assignment locals replaced by their definitions (None stays None): names are compared by what they hold, not by how they are spelt."""
+    return u(source.inline_node(e, defs)) if e is not None else None
 
 
 def run(chk):
@@ -100,9 +112,19 @@ def run(chk):
         detail = f"sample size = {short(a, 110)}"
     chk.ob("O8.1", "percentile set selected by the NORMAL sample count", ok, pf[0] if pf else sl, detail)
     call = gm["__call__"]
-    er = [c for c in source.calls_in(call) if u(c.func) == "self.error_rate"]
-    ok = bool(er) and len(er[0].args) == 2 and u(er[0].args[0]) == "t" and u(er[0].args[1]) == "op_type" and u(local_defs(call).get("op_type")) == "task.operation.type" and u(local_defs(call).get("t")) == "task.name"
-    chk.ob("O8.1", "error rate requested for (task name, operation type)", ok, er[0] if er else call, "")
+    erc = [c for c in source.calls_in(call) if u(c.func) == "self.error_rate"]
+    cdefs = local_defs(call)
+    ok = False
+    detail = "self.error_rate(...) not called"
+    if erc:
+        # by role: both arguments (followed through the locals that hold them) are read off the task the enclosing loop iterates over
+        lv = _loop_var(erc[0])
+        ep = params_of(gm["error_rate"])[1:]
+        eb = bind_args(erc[0], gm["error_rate"])
+        got = [_il(eb.get(p_), cdefs) for p_ in ep]
+        ok = lv is not None and len(ep) == 2 and len(erc[0].args) + len(erc[0].keywords) == 2 and got == [f"{lv}.name", f"{lv}.operation.type"]
+        detail = f"error_rate({', '.join(str(g) for g in got)}) in the loop over `{lv}`"
+    chk.ob("O8.1", "error rate requested for (task name, operation type)", ok, erc[0] if erc else call, detail)
 
     # ---- O8.2 percentile selector ------------------------------------------------------------------------------------------------------------------
     chk.rule("O8.2", "the percentile set is a function of the count only: total over [1, inf) (15 boundary counts), every list ends with 100 and contains 50 for counts > 1, sets grow monotonically; count < 1 raises", 17,
@@ -194,14 +216,21 @@ def run(chk):
 
         def metric_of(e):
             if isinstance(e, ast.Call) and u(e.func) == "self.summary_stats":
-                return ("summary", e.args[0].value if isinstance(e.args[0], ast.Constant) else None)
+                return ("summary", e.args[0].value if e.args and isinstance(e.args[0], ast.Constant) else None)
             if isinstance(e, ast.Call) and u(e.func) == "self.single_latency":
                 mn = arg_of(e, 2, "metric_name")
                 return ("latency", mn.value if isinstance(mn, ast.Constant) else "latency")
             return ("other", u(e))
 
+        # by role: error rate / duration are the values computed by self.error_rate / self.duration for this task (whatever the locals holding them are called);
+        # task / operation are read off the task the enclosing loop iterates over
+        lv = _loop_var(aoc[0])
+        ern, dun = (source.inline_node(b[k], cdefs) if b.get(k) is not None else None for k in ("error_rate", "duration"))
         ok = metric_of(b.get("throughput")) == ("summary", "throughput") and metric_of(b.get("latency")) == ("latency", "latency") and metric_of(b.get("service_time")) == ("latency", "service_time") \
-            and metric_of(b.get("processing_time")) == ("latency", "processing_time") and u(b.get("error_rate")) == "error_rate" and u(b.get("duration")) == "duration" and u(b.get("task")) == "t" and u(b.get("operation")) == "task.operation.name"
+            and metric_of(b.get("processing_time")) == ("latency", "processing_time") and lv is not None \
+            and isinstance(ern, ast.Call) and u(ern.func) == "self.error_rate" and bool(erc) and u(ern) == _il(erc[0], cdefs) \
+            and isinstance(dun, ast.Call) and u(dun.func) == "self.duration" and [u(a) for a in dun.args] == [f"{lv}.name"] and not dun.keywords \
+            and _il(b.get("task"), cdefs) == f"{lv}.name" and _il(b.get("operation"), cdefs) == f"{lv}.operation.name"
         sd = gm["single_latency"].args.defaults
         ok = ok and sd and isinstance(sd[-1], ast.Constant) and sd[-1].value == "latency"
     chk.ob("O8.3", "each op-metrics field is computed for the metric of the same name", ok, aoc[0] if aoc else call, "")
@@ -283,96 +312,205 @@ def run(chk):
     fl = [n for n in walk_body(ge) if isinstance(n, ast.For) and is_self_attr(n.iter, "docs")]
     if not fl:
         raise AnchorMissing("loop over docs in get_error_rate")
-    cond_if = [n for n in fl[0].body if isinstance(n, ast.If)]
-    ats = [u(a) for a in atoms_of(cond_if[0].test)] if cond_if else []
-    ok = "doc['name'] == 'service_time'" in ats and "doc['task'] == task" in ats and any("operation-type" in a for a in ats) and any("sample-type" in a and "sample_type.name.lower()" in a for a in ats)
-    chk.ob("O8.6", "record filter: service_time of the task / operation type / sample type", ok, cond_if[0] if cond_if else ge, f"{ats}")
-    tot = [n for n in ast.walk(fl[0]) if isinstance(n, ast.AugAssign) and u(n.target) == "total_count"]
-    err = [n for n in ast.walk(fl[0]) if isinstance(n, ast.AugAssign) and u(n.target) == "error"]
-    ok = len(tot) == 1 and len(err) == 1 and source.is_const(tot[0].value, 1) and source.is_const(err[0].value, 1) and len(guards(tot[0], stop=fl[0])) == 1 \
-        and any(pol and u(t) in ("doc['meta']['success'] is False", "not doc['meta']['success']") for t, pol in guards(err[0], stop=fl[0])) and len(guards(err[0], stop=fl[0])) == 2
-    chk.ob("O8.6", "every matching record counted once; failed ones counted as errors", ok, tot[0] if tot else ge, "")
+    loop = fl[0]
+    dv = loop.target.id if isinstance(loop.target, ast.Name) else None
+    gp_ = params_of(ge)[1:4]
+    if dv is None or len(gp_) != 3:
+        raise AnchorMissing("get_error_rate(self, task, operation_type, sample_type) with a loop `for <name> in self.docs`")
     rets = [n for n in walk_body(ge) if isinstance(n, ast.Return)]
-    ok = any(rat_equal(r.value, parse_expr("error / total_count")) and any(pol and u(t) == "total_count > 0" for t, pol in guards(r)) for r in rets) and any(isinstance(r.value, ast.Constant) and r.value.value == 0 for r in rets)
-    chk.ob("O8.6", "error rate == errors / total (0.0 without records)", ok, ge, "")
-    inits = {u(n.targets[0]): n.value for n in ge.body if isinstance(n, ast.Assign)}
-    chk.ob("O8.6", "counters start at 0", source.is_const(inits.get("error"), 0) and source.is_const(inits.get("total_count"), 0), ge, "")
+    # roles from the data flow, not from the spelling: both counters are incremented in the loop; the error counter is the one incremented under the success test, the other one counts
+    # the matching records (fallback when that shape is absent: numerator / denominator of the returned quotient)
+    incs = [n for n in ast.walk(loop) if isinstance(n, ast.AugAssign) and isinstance(n.target, ast.Name)]
+    cands = list(dict.fromkeys(n.target.id for n in incs))
+    failed_pats = ("V_d['meta']['success'] is False", "not V_d['meta']['success']")
+    err_c = [c for c in cands if any(P.guarded(n, *failed_pats, stop=loop, binds={"d": dv}) is not None for n in incs if n.target.id == c)]
+    err_n = tot_n = None
+    if len(cands) == 2 and len(err_c) == 1:
+        err_n, tot_n = err_c[0], [c for c in cands if c != err_c[0]][0]
+    else:
+        for r in rets:
+            q = P.match(r.value, "V_e / V_t")
+            if q is not None and q["e"] != q["t"]:
+                err_n, tot_n = q["e"], q["t"]
+                break
+    tot = [n for n in incs if n.target.id == tot_n]
+    err = [n for n in incs if n.target.id == err_n]
+    # the record filter is whatever guards the counting of a record: evaluated over representative records and requests instead of being read off its text
+    ffacts = P.fact_nodes(tot[0], stop=loop) if tot else []
+    ok = bool(ffacts)
+    detail = f"{[u(f) for f in ffacts]}"
+    if ok:
+        try:
+            for rec in ({"name": n_, "task": t_, "operation-type": o_, "sample-type": s_, "meta": {"success": True}} for n_ in ("service_time", "latency") for t_ in ("A", "B") for o_ in ("X", "Y") for s_ in ("normal", "warmup")):
+                for q_ot in (None, "X", "Y"):
+                    for q_st in (None, "Normal", "Warmup"):
+                        env = {dv: rec, gp_[0]: "A", gp_[1]: q_ot, gp_[2]: None if q_st is None else Record(name=q_st)}
+                        want = rec["name"] == "service_time" and rec["task"] == "A" and (q_ot is None or rec["operation-type"] == q_ot) and (q_st is None or rec["sample-type"] == q_st.lower())
+                        got = all(bool(ev(f, env)) for f in ffacts)
+                        if got != want and ok:
+                            ok = False
+                            detail = f"record {rec} is {'counted' if got else 'not counted'} for task='A' operation_type={q_ot!r} sample_type={q_st}: {[u(f) for f in ffacts]}"
+        except CannotEval as e:
+            ok = False
+            detail = f"filter not evaluable ({e}): {[u(f) for f in ffacts]}"
+    chk.ob("O8.6", "record filter: service_time of the task / operation type / sample type", ok, source.enclosing(tot[0], ast.If) or ge if tot else ge, detail)
+    ok = False
+    if len(tot) == 1 and len(err) == 1:
+        ft, fe = {u(f) for f in ffacts}, P.fact_nodes(err[0], stop=loop)
+        extra = [f for f in fe if u(f) not in ft]
+        # counted once per matching record; an error is counted under exactly the same filter plus `success is False`
+        ok = all(isinstance(n.op, ast.Add) and source.is_const(n.value, 1) for n in (tot[0], err[0])) and ft <= {u(f) for f in fe} and len(extra) == 1 and P.is_(extra[0], *failed_pats, binds={"d": dv})
+    chk.ob("O8.6", "every matching record counted once; failed ones counted as errors", ok, tot[0] if tot else ge, f"error counter `{err_n}`, record counter `{tot_n}`")
+    # result: decided for concrete counter values (which return is taken), the taken quotient compared symbolically
+    tail = ge.body[ge.body.index(loop) + 1:] if loop in ge.body else []
+    ok = err_n is not None and bool(tail)
+    detail = ""
+    if ok:
+        try:
+            for e_v, t_v in ((0, 0), (0, 1), (1, 1), (0, 4), (1, 4), (4, 4), (2, 7)):
+                env = {err_n: e_v, tot_n: t_v}
+
+                def atom(n, env_):
+                    try:
+                        return bool(ev(n, env_))
+                    except CannotEval:
+                        return None
+
+                out = decide(tail, atom, env)
+                good = out.kind == "return" and out.value is not None and (rat_equal(out.value, parse_expr(f"{err_n} / {tot_n}")) if t_v > 0 else ev(out.value, env) == 0)
+                if not good:
+                    ok = False
+                    detail = f"{e_v} failed of {t_v} records -> {out.text()}"
+                    break
+        except (Unsupported, UnknownAtom, CannotEval) as e:
+            ok = False
+            detail = f"result not decidable from the counters: {e}"
+    chk.ob("O8.6", "error rate == errors / total (0.0 without records)", ok, ge, detail)
+    inits = {n.targets[0].id: n.value for n in ge.body if isinstance(n, ast.Assign) and isinstance(n.targets[0], ast.Name)}
+    chk.ob("O8.6", "counters start at 0", err_n is not None and source.is_const(inits.get(err_n), 0) and source.is_const(inits.get(tot_n), 0), ge, "")
 
     # ---- O8.7 interpolation ----------------------------------------------------------------------------------------------------------------------------------------
     chk.rule("O8.7", "in-memory percentile == documented linear interpolation: rank == p/100 * (n - 1); exact rank -> sorted[int(rank)]; else lo + (hi - lo) * (rank - floor(rank)) with "
              "lo = sorted[floor(rank)], hi = sorted[ceil(rank)]; the list handed in is sorted(values) of the filtered records", 5,
              "any value set with n >= 2: percentiles not between min and max / p100 != max / p50 != median")
     pv = im["percentile_value"]
+    if len(params_of(pv)) < 2:
+        raise AnchorMissing("percentile_value(sorted_values, percentile)")
     sv, pc = params_of(pv)[-2:]
     pdefs = local_defs(pv)
+    # by role: the rank is the local computed from the percentile and the number of values
+    rks = [k for k, v in pdefs.items() if any(P.is_(x, f"len({sv})") for x in ast.walk(v)) and any(isinstance(x, ast.Name) and x.id == pc for x in ast.walk(v))]
+    rkn = rks[0] if len(rks) == 1 else None
+    nork = {k: v for k, v in pdefs.items() if k != rkn}
 
-    def pat(n):
+    def patom(n):
         t = u(n)
         if t in (f"len({sv})",):
             return "N"
         if t in (f"float({pc})", pc):
             return "P"
-        if t in ("math.floor(rank)", "int(math.floor(rank))"):
+        if rkn is not None and t in (f"math.floor({rkn})", f"int(math.floor({rkn}))"):
             return "FLOOR"
         if isinstance(n, ast.Subscript) and u(n.value) == sv:
-            idx = source.inline_node(n.slice, {k: v for k, v in pdefs.items() if k != "rank"})
-            return f"S[{u(idx)}]"
+            return f"S[{u(source.inline_node(n.slice, nork))}]"
         return None
 
-    rk = pdefs.get("rank")
-    ok = rk is not None and rat_equal(rk, parse_expr("P / 100 * (N - 1)"), atom=pat)
-    chk.ob("O8.7", "rank == p/100 * (n - 1)", ok, rk if rk is not None else pv, u(rk) if rk is not None else "")
+    rk = pdefs.get(rkn) if rkn is not None else None
+    ok = rk is not None and rat_equal(rk, parse_expr("P / 100 * (N - 1)"), atom=patom)
+    chk.ob("O8.7", "rank == p/100 * (n - 1)", ok, rk if rk is not None else pv, u(rk) if rk is not None else f"no single local computed from {pc} and len({sv})")
     rets = [n for n in walk_body(pv) if isinstance(n, ast.Return)]
-    exact = [r for r in rets if any(pol and u(t) in ("rank == int(rank)", "int(rank) == rank", "rank.is_integer()") for t, pol in guards(r))]
-    ok = len(exact) == 1 and u(exact[0].value) == f"{sv}[int(rank)]"
+    exact = [r for r in rets if rkn is not None and P.guarded(r, "V_r == int(V_r)", "V_r.is_integer()", binds={"r": rkn}) is not None]
+    ok = len(exact) == 1 and P.is_(exact[0].value, f"{sv}[int(V_r)]", binds={"r": rkn})
     chk.ob("O8.7", "exact rank -> sorted[int(rank)]", ok, exact[0] if exact else pv, "")
     inter = [r for r in rets if r not in exact]
     ok = False
-    if len(inter) == 1:
-        e = source.inline_node(inter[0].value, {k: v for k, v in pdefs.items() if k != "rank"})
-        ok = rat_equal(e, parse_expr("LO + (HI - LO) * (rank - FLOOR)"), atom=lambda n: {"S[math.floor(rank)]": "LO", "S[math.ceil(rank)]": "HI"}.get(pat(n) or "", pat(n)))
+    if len(inter) == 1 and rkn is not None and inter[0].value is not None:
+        e = source.inline_node(inter[0].value, nork)
+        ok = rat_equal(e, parse_expr(f"LO + (HI - LO) * ({rkn} - FLOOR)"), atom=lambda n: {f"S[math.floor({rkn})]": "LO", f"S[math.ceil({rkn})]": "HI"}.get(patom(n) or "", patom(n)))
     chk.ob("O8.7", "otherwise lo + (hi - lo) * (rank - floor(rank)) over adjacent order statistics", ok, inter[0] if inter else pv, u(inter[0].value) if inter else "")
     gp = im["get_percentiles"]
     gdefs = local_defs(gp)
     pvc = [c for c in source.calls_in(gp) if last_attr(c.func) == "percentile_value"]
-    ok = bool(pvc) and u(source.inline_node(pvc[0].args[0], gdefs)).startswith("sorted(self.get(") and u(pvc[0].args[1]) == source.enclosing(pvc[0], ast.For).target.id
+    ok = bool(pvc) and len(pvc[0].args) == 2 and u(source.inline_node(pvc[0].args[0], gdefs)).startswith("sorted(self.get(") and _loop_var(pvc[0]) is not None and u(pvc[0].args[1]) == _loop_var(pvc[0])
     gcall = [c for c in source.calls_in(gp) if u(c.func) == "self.get"]
     ok = ok and bool(gcall) and [u(a) for a in gcall[0].args] == params_of(gp)[1:5]
     chk.ob("O8.7", "percentiles computed on sorted(filtered values) for each requested percentile", ok, pvc[0] if pvc else gp, "")
-    ok = any(isinstance(n, ast.Assign) and isinstance(n.targets[0], ast.Subscript) and u(n.targets[0].slice) == u(pvc[0].args[1]) for n in walk_body(gp)) if pvc else False
+    ok = any(isinstance(n, ast.Assign) and isinstance(n.targets[0], ast.Subscript) and u(n.targets[0].slice) == u(pvc[0].args[1]) for n in walk_body(gp)) if pvc and len(pvc[0].args) == 2 else False
     chk.ob("O8.7", "result keyed by the requested percentile", ok, gp, "")
 
     # ---- O8.8 stats from the raw values ------------------------------------------------------------------------------------------------------------------------------
     chk.rule("O8.8", "count == len, min == first, max == last of the sorted filtered values, avg == mean of the same list; get_mean returns that avg, get_median the 50th percentile; the summary "
              "copies min/mean/median/max under the names of the same meaning", 5, "summary min/max/mean/median disagree with the raw values")
     gst = im["get_stats"]
-    dd = [n for n in walk_body(gst) if isinstance(n, ast.Dict)]
+    dd = [n for n in walk_body(gst) if isinstance(n, ast.Dict) and any(source.is_const(k, "count") for k in n.keys if k is not None)]
     ok = False
+    detail = ""
     if dd:
-        d = {k.value: u(v) for k, v in zip(dd[0].keys, dd[0].values) if isinstance(k, ast.Constant)}
-        ok = d.get("count") == "len(sorted_values)" and d.get("min") in ("sorted_values[0]", "min(sorted_values)") and d.get("max") in ("sorted_values[-1]", "max(sorted_values)") and d.get("avg") in ("statistics.mean(sorted_values)", "sum(sorted_values) / len(sorted_values)")
+        # by role: every statistic, followed through the locals, is taken from sorted(self.get(<the request>))
         sd_ = local_defs(gst)
-        ok = ok and u(sd_.get("sorted_values")) == "sorted(values)" and u(sd_.get("values")) == f"self.get({', '.join(params_of(gst)[1:5])})"
-    chk.ob("O8.8", "get_stats: count/min/max/avg of the sorted filtered values", ok, dd[0] if dd else gst, "")
+        d = {k.value: _il(v, sd_) for k, v in zip(dd[0].keys, dd[0].values) if isinstance(k, ast.Constant)}
+        S = f"sorted(self.get({', '.join(params_of(gst)[1:5])}))"
+        ok = d.get("count") == f"len({S})" and d.get("min") in (f"{S}[0]", f"min({S})") and d.get("max") in (f"{S}[-1]", f"max({S})") and d.get("avg") in (f"statistics.mean({S})", f"sum({S}) / len({S})")
+        detail = "" if ok else f"{ {k: d.get(k) for k in ('count', 'min', 'max', 'avg')} }"
+    chk.ob("O8.8", "get_stats: count/min/max/avg of the sorted filtered values", ok, dd[0] if dd else gst, detail)
     MS = met.cls("MetricsStore")
     msm = met.methods(MS)
     gme = msm["get_mean"]
-    ok = any(isinstance(n, ast.Return) and u(n.value) in ("stats['avg'] if stats else None", "stats['avg'] if stats is not None else None") for n in walk_body(gme)) and u(local_defs(gme).get("stats")) == f"self.get_stats({', '.join(params_of(gme)[1:5])})"
-    chk.ob("O8.8", "get_mean == avg of the same filtered values", ok, gme, "")
+    # by role: the local holding self.get_stats(<the request>); the result is decided for a present and an absent statistics record
+    sn = [k for k, v in local_defs(gme).items() if u(v) == f"self.get_stats({', '.join(params_of(gme)[1:5])})"]
+    ok = len(sn) == 1
+    detail = "" if ok else "no single local holding self.get_stats(<the request>)"
+    if ok:
+        try:
+            for sval, want in (({"count": 3, "min": 1.0, "max": 9.0, "avg": 4.5, "sum": 13.5}, 4.5), ({"count": 1, "min": 0.0, "max": 0.0, "avg": 0.0, "sum": 0.0}, 0.0), (None, None)):
+                env = {sn[0]: sval}
+
+                def atom(n, env_):
+                    try:
+                        return bool(ev(n, env_))
+                    except CannotEval:
+                        return None
+
+                out = decide(gme.body, atom, env)
+                got = ev(out.value, env) if out.kind == "return" and out.value is not None else None
+                if out.kind not in ("return", "fallthrough") or got != want or (got is None) != (want is None):
+                    ok = False
+                    detail = f"statistics {sval} -> {out.text()}"
+                    break
+        except (Unsupported, UnknownAtom, CannotEval) as e:
+            ok = False
+            detail = f"result not decidable from the statistics record: {e}"
+    chk.ob("O8.8", "get_mean == avg of the same filtered values", ok, gme, detail)
     gmd = msm["get_median"]
     md = local_defs(gmd)
-    ok = str(getattr(md.get("median"), "value", "")) in ("50.0", "50") and any(isinstance(c, ast.Call) and u(c.func) == "self.get_percentiles" and [u(a) for a in c.args[:4]] == params_of(gmd)[1:5] for c in walk_body(gmd))
+    ok = False
+    for c in walk_body(gmd):
+        if isinstance(c, ast.Call) and u(c.func) == "self.get_percentiles" and [u(a) for a in c.args[:4]] == params_of(gmd)[1:5]:
+            # by role: the one percentile requested (followed through the local that holds it) is the 50th
+            pl = arg_of(c, 4, "percentiles")
+            pl = source.inline_node(pl, md) if pl is not None else None
+            ok = ok or (isinstance(pl, (ast.List, ast.Tuple)) and len(pl.elts) == 1 and isinstance(pl.elts[0], ast.Constant) and str(pl.elts[0].value) in ("50.0", "50"))
     chk.ob("O8.8", "get_median == 50th percentile of the same filtered values", ok, gmd, "")
     ss = gm["summary_stats"]
     ssd = local_defs(ss)
     dd = [n for n in walk_body(ss) if isinstance(n, ast.Dict) and not all(isinstance(v, ast.Constant) and v.value is None for k, v in zip(n.keys, n.values) if getattr(k, "value", None) != "unit")]
     ok = False
+    qcalls = []
     if dd:
-        d = {k.value: u(source.inline_node(v, {})) for k, v in zip(dd[0].keys, dd[0].values) if isinstance(k, ast.Constant)}
-        srcs = {k: last_attr(ssd[k].func) for k in ("mean", "median", "stats", "unit") if isinstance(ssd.get(k), ast.Call)}
-        ok = d == {"min": "stats['min']", "mean": "mean", "median": "median", "max": "stats['max']", "unit": "unit"} and srcs == {"mean": "get_mean", "median": "get_median", "stats": "get_stats", "unit": "get_unit"}
+        # by role: each reported statistic, followed through the local that holds it, is the result of the store query of the same meaning
+        dn = {k.value: source.inline_node(v, ssd) for k, v in zip(dd[0].keys, dd[0].values) if isinstance(k, ast.Constant)}
+
+        def origin(e):
+            if isinstance(e, ast.Subscript) and isinstance(e.slice, ast.Constant) and isinstance(e.value, ast.Call) and isinstance(e.value.func, ast.Attribute) and is_self_attr(e.value.func.value, "store"):
+                return f"{e.value.func.attr}[{e.slice.value!r}]"
+            if isinstance(e, ast.Call) and isinstance(e.func, ast.Attribute) and is_self_attr(e.func.value, "store"):
+                return e.func.attr
+            return u(e)
+
+        ok = {k: origin(v) for k, v in dn.items()} == {"min": "get_stats['min']", "mean": "get_mean", "median": "get_median", "max": "get_stats['max']", "unit": "get_unit"}
+        qcalls = [x for k, v in dn.items() if k in ("min", "mean", "median", "max") for x in ast.walk(v) if isinstance(x, ast.Call) and isinstance(x.func, ast.Attribute) and is_self_attr(x.func.value, "store")]
     chk.ob("O8.8", "summary copies min/mean/median/max from the statistics of the same meaning", ok, dd[0] if dd else ss, "")
-    ok = all(isinstance(ssd.get(k), ast.Call) and u(ssd[k].args[0]) == params_of(ss)[1] for k in ("mean", "median", "stats")) if all(k in ssd for k in ("mean", "median", "stats")) else False
+    ok = {c.func.attr for c in qcalls} >= {"get_mean", "get_median", "get_stats"} and all(c.args and u(c.args[0]) == params_of(ss)[1] for c in qcalls)
     chk.ob("O8.8", "all summary statistics are of the requested metric", ok, ss, "")
 
     # ---- O8.9 no truthiness on optional numerics ------------------------------------------------------------------------------------------------------------------------
@@ -381,7 +519,8 @@ def run(chk):
     found = 0
     for mname, f in gm.items():
         fdefs = local_defs(f)
-        opt = {k for k, v in fdefs.items() if isinstance(v, ast.Call) and isinstance(v.func, ast.Attribute) and v.func.attr in ("get_mean", "get_median", "get_one", "median")}
+        # the finding is keyed by the ROLE of the tested local (the query it holds: get_mean -> mean), not by its spelling
+        opt = {k: v.func.attr.removeprefix("get_") for k, v in fdefs.items() if isinstance(v, ast.Call) and isinstance(v.func, ast.Attribute) and v.func.attr in ("get_mean", "get_median", "get_one", "median")}
         for n in walk_body(f):
             tests = [n.test] if isinstance(n, (ast.If, ast.IfExp, ast.While)) else []
             for t in tests:
@@ -389,13 +528,14 @@ def run(chk):
                     if isinstance(a, ast.Name) and a.id in opt:
                         found += 1
                         chk.ob("O8.9", f"{mname}: optional statistic `{a.id}` tested by truthiness", False, n, f"`{short(t, 60)}`: a value of 0 is treated as missing",
-                               key=f"{_M}:GlobalStatsCalculator.{mname}:truthiness:{a.id}")
+                               key=f"{_M}:GlobalStatsCalculator.{mname}:truthiness:{opt[a.id]}")
     if found == 0:
         chk.ob("O8.9", "no truthiness test on optional statistics in the calculator", True, GC, "")
     # advisory O8.5 / system stats
     SC = met.cls("SystemStatsCalculator")
     addf = met.methods(SC).get("add")
-    if addf is not None and any(isinstance(n, ast.If) and u(n.test) == "metric_value" for n in walk_body(addf)):
+    adefs = local_defs(addf) if addf is not None else {}
+    if addf is not None and any(isinstance(n, ast.If) and isinstance(n.test, ast.Name) and isinstance(adefs.get(n.test.id), ast.Call) and last_attr(adefs[n.test.id].func) == "get_one" for n in walk_body(addf)):
         chk.adv("O8.9", "SystemStatsCalculator.add drops a system metric whose value is 0 (`if metric_value:`) — outside the property (system metrics)", addf)
     EM = met.cls("EsMetricsStore")
     for n in ast.walk(EM):
